@@ -152,7 +152,7 @@ class KMLSubtiles(Harness):
     """KML documents advertise sub-tile addresses together with their rectangles: requesting the
     advertised address (origin sw, no profile) must serve exactly that rectangle."""
     modules = ['mapproxy.grid', 'mapproxy.service.tile', 'mapproxy.service.kml']
-    functions = ['KMLServer._get_subtiles', 'TileServiceGrid.external_tile_coord', 'TileServiceGrid.internal_tile_coord',
+    functions = ['KMLServer._get_subtiles', 'KMLServer.map', 'TileServiceGrid.external_tile_coord', 'TileServiceGrid.internal_tile_coord',
                  'TileLayer.tile_bbox', 'TileGrid.get_affected_level_tiles', 'TileGrid.flip_tile_coord']
 
     @classmethod
@@ -182,8 +182,25 @@ class KMLSubtiles(Harness):
         res = G.resolution(tilesvc.public_levels(ctx['SG'], False)[level + 1])
         eps = res * 1e-6 + 2 * ABS_ROUND
         ok = True
+        import types
+        seen = []
+
+        class _L(object):
+            name, format, grid = layer.name, 'png', layer.grid
+
+            def render(self, request, coverage=None, **kw):
+                seen.append((request.origin, request.use_profiles))
+                return types.SimpleNamespace(as_buffer=lambda: b'', format='png', cacheable=False, timestamp=None, size=None)
+        srv.layer = lambda r: _L()
+        srv.authorize_tile_layer = lambda *a, **k: None
+        srv.max_tile_age = None
         for st in subs:
-            served = layer.tile_bbox(tilesvc.Req(tuple(st.coord), origin='sw', use_profiles=False), use_profiles=False)
+            # the image URL of the overlay is answered by the real KMLServer.map: take the addressing origin it hands to render
+            img_req = tilesvc.Req(tuple(st.coord), origin=None, use_profiles=False)
+            img_req.http = types.SimpleNamespace(environ={})
+            srv.map(img_req)
+            ok = AND(ok, len(seen) >= 1)
+            served = layer.tile_bbox(tilesvc.Req(tuple(st.coord), origin=seen[-1][0], use_profiles=seen[-1][1]), use_profiles=seen[-1][1])
             ok = AND(ok, st.coord[2] == level + 1,
                      within(served[0], st.bbox[0], eps), within(served[1], st.bbox[1], eps),
                      within(served[2], st.bbox[2], eps), within(served[3], st.bbox[3], eps),
